@@ -138,7 +138,7 @@ var running atomic.Int32
 // StallTimeout is the wall-clock time without any handoff after which the
 // process gives up with SIM-STALL (exit 2). It is a guard against real
 // blocking the instrumenter could not see; it never produces a verdict.
-var StallTimeout = 60 * time.Second
+var StallTimeout = 180 * time.Second
 
 func startWatchdog() {
 	watchdogOnce.Do(func() {
@@ -281,6 +281,7 @@ func (t *Task) yield(site uint32, why uint8, child *Task) {
 //
 //go:norace
 func BeginOp(budget int64) {
+	progress.Add(1) // an operation starting is progress as far as the stall watchdog is concerned
 	t := cur
 	if t == nil {
 		return
